@@ -40,6 +40,8 @@ def run(prog: Program, rep: Report):
     rep.attempt(lambda: rule_no_class_state(prog, rep, "C16.R7", [im]))
     from .mixins import rule_fresh_iterator
     rep.attempt(lambda: rule_fresh_iterator(prog, rep, "C16.R8", [im]))
+    from .ownership import rule_snapshot
+    rep.attempt(lambda: rule_snapshot(prog, rep, "C16.R9", im))
 
 
 def _raises(stmts) -> Optional[str]:
